@@ -58,6 +58,7 @@ impl Fault {
                 "conflict" => "F10-conflict-markers",
                 "tokens" => "F12-token-soup",
                 "decl" => "F15-insert-declaration",
+                "wildcard" => "F20-wildcard-import",
                 _ => "F9-insert-foreign-lines",
             },
             Fault::ReplaceLines { text, .. } => {
